@@ -9,6 +9,7 @@ its artifacts count only when they reproduce on the real asan parse_file in a fr
 A violation key is a crash class: C15:<how>:<top in-project frames, no line numbers>.
 """
 import base64
+import hashlib
 import json
 import os
 import random
@@ -284,6 +285,8 @@ WALL_BACKUP = 25                            # x cpu limit: wall-clock backstop (
 
 
 def _cpu_limit_for(inp):
+    if inp.get("cpu"):
+        return inp["cpu"]     # witnesses of listed hang findings are replayed with a shorter watchdog
     n = len(inp["d"]) * 3 // 4
     return CPU_LIMIT_SMALL if n <= 4096 else CPU_LIMIT_BIG
 
@@ -314,11 +317,18 @@ def run_cpu(argv, cpu, cwd, capture_out=False):
     e.update(core.SAN_ENV)
     e.update(_ENV)
     t0 = time.time()
-    try:
-        p = subprocess.Popen(argv, stdin=subprocess.DEVNULL, stdout=subprocess.DEVNULL, stderr=subprocess.PIPE, env=e,
-                             cwd=cwd, start_new_session=True, preexec_fn=_child_limits)
-    except OSError as ex:
-        raise core.HarnessError("cannot start %r: %s" % (argv[0], ex))
+    p = None
+    for attempt in range(60):
+        try:
+            p = subprocess.Popen(argv, stdin=subprocess.DEVNULL, stdout=subprocess.DEVNULL, stderr=subprocess.PIPE,
+                                 env=e, cwd=cwd, start_new_session=True, preexec_fn=_child_limits)
+            break
+        except OSError as ex:
+            # the shared build cache may be re-linking the binary right now (another check saw a source change)
+            last = ex
+            time.sleep(1.0)
+    if p is None:
+        raise core.HarnessError("cannot start %r: %s" % (argv[0], last))
     timed_out = False
     wall_hit = False
     err = b""
@@ -367,6 +377,10 @@ class Outcome:
 
     def __init__(self, key, cls, r, detail=None):
         self.key, self.cls, self.r, self.detail = key, cls, r, detail or {}
+
+
+def _inp_hash(inp):
+    return hashlib.sha1(json.dumps(inp, sort_keys=True).encode()).hexdigest()
 
 
 def exec_input(b, inp, d, res=None):
@@ -600,8 +614,20 @@ def run_case(ctx, case):
         inputs = case["inputs"]
     else:
         inputs = gen_inputs(case["sub"], case["n"], b.src)
+    fcache = {}
+    if case.get("finding_witness"):
+        try:
+            with open(os.path.join(ctx.work, "fcache.json")) as fh:
+                fcache = json.load(fh)
+        except (OSError, ValueError):
+            fcache = {}
     for inp in inputs:
-        o = exec_input(b, inp, d, res)
+        pre = fcache.get(_inp_hash(inp))
+        if pre is not None:
+            o = Outcome(pre["key"], pre["cls"], core.Result(pre["rc"], None, "", pre["err"], False, 0.0))
+            res.count("finding_witness_runs")
+        else:
+            o = exec_input(b, inp, d, res)
         res.count("inputs")
         mut0 = inp["m"].split("+")[0]
         mut0 = re.sub(r"_\d+$", "", mut0)
@@ -738,10 +764,35 @@ def second_phase(chk):
         chk.report(c["minimise"], {"input": c["inputs"][0], "note": "not minimised (more than 96 unlisted keys)"}, c)
 
 
+def _prerun(args):
+    work, inp = args
+    b = core.build("asan")
+    d = os.path.join(work, "pre", _inp_hash(inp))
+    os.makedirs(d, exist_ok=True)
+    o = exec_input(b, inp, d)
+    shutil.rmtree(d, ignore_errors=True)
+    return _inp_hash(inp), {"key": o.key, "cls": o.cls, "rc": o.r.rc, "err": o.r.err[-3000:]}
+
+
 def prepare(chk):
+    """builds, and runs the witnesses of the listed findings in parallel: ./check replays them one by one in the
+    main process, which would serialise ~30 crashing runs and 6 watchdog periods.  run_case() takes the outcome of
+    a finding-witness case from this cache (same binaries, same input, seconds ago); without the cache (a replay
+    from a fresh process) it simply runs the input."""
     core.build("asan")
     if not chk.quick():
         fuzz_exe()
+    inputs = []
+    for f in chk.findings:
+        c = f.get("case") or {}
+        if c.get("finding_witness"):
+            inputs.extend(c.get("inputs", []))
+    if inputs:
+        from concurrent.futures import ProcessPoolExecutor
+        with ProcessPoolExecutor(max_workers=core.NPROC) as ex:
+            cache = dict(ex.map(_prerun, [(chk.work, i) for i in inputs]))
+        with open(os.path.join(chk.work, "fcache.json"), "w") as fh:
+            json.dump(cache, fh)
 
 
 def main(chk):
